@@ -226,3 +226,15 @@ Definition accepts (s : sig) (a : actuals) : bool :=
 (* end to end: a call with raw arguments is reported iff this is false *)
 Definition call_ok (s : sig) (l : list rawarg) : bool :=
   match preprocess l with None => false | Some a => accepts s a end.
+
+(* guard clause of known finding C05-positional-after-star-args: a positional
+   argument (or a non-empty tuple display) follows an unknown-length *args *)
+Fixpoint positional_after_star_from (seen : bool) (l : list rawarg) : bool :=
+  match l with
+  | [] => false
+  | RStarUnknown :: r => positional_after_star_from true r
+  | RPos :: r => seen || positional_after_star_from seen r
+  | RStarLit (S _) :: r => seen || positional_after_star_from seen r
+  | _ :: r => positional_after_star_from seen r
+  end.
+Definition positional_after_star (l : list rawarg) : bool := positional_after_star_from false l.
